@@ -666,7 +666,9 @@ class QueryGarbageCollector(BaseGarbageCollector):
             WHERE 
                 (kind >= 20000 and kind < 30000)
             OR
-                (tags.name = 'expiration' AND tags.value < '%NOW%')
+                (tags.name = 'expiration' AND tags.value <> ''
+                 AND tags.value NOT GLOB '*[^0-9]*'
+                 AND CAST(tags.value AS INTEGER) < %NOW%)
         )
     """
 
